@@ -45,6 +45,8 @@ def gen_cases(ctx):
                     feeds = [("n", 0, x) for x in cancel_stream(r, n, p)]
                 else:
                     feeds = [("n", 0, x) for x in scalar_stream(r, n, r.choice(["signed", "walk", "mixed", "flatafter", "segments", "tiny", "huge", "periodic"]), p=p)]
+                if rep % 3 == 1:
+                    feeds = sprinkle_serde(feeds, r)
                 cases.append(Case("%s_p%d_%d" % (ind, p, rep), [new_op(0, ind, pr)] + feeds, dump=(0,),
                                   meta={"ind": ind, "p": p, "n": n, "m": pr[3]}))
     # known finding K8: finite inputs whose differences overflow binary64 make the running variance inf - inf = NaN
@@ -79,10 +81,11 @@ def check_impl(ctx, cases):
         feeds = c.ops[1:]
         M = 0.0
         hist = []
-        for t, (o, ob) in enumerate(zip(feeds, c.obs[1:]), start=1):
+        for o, ob in zip(feeds, c.obs[1:]):
             v = f_of(ob)
             if v is None:
                 continue
+            t = len(hist) + 1        # inputs fed so far (serde round-trips are not inputs)
             vals = [o[2]] if o[0] == "n" else list(o[3:6])
             M = max([M] + [abs(x) for x in vals if x == x and abs(x) != float("inf")])
             hist.append(o)
